@@ -9,6 +9,12 @@ State = the public mapping (`.rpms` / `.modules` / `.extra_files`) as a `PyVal`:
 order, exactly what `serialize` later emits verbatim and what `deserialize` stores verbatim (so a state may be
 ANY JSON value after a load; the error branches for ill-shaped states are modelled too).
 
+The statements of each `add` method are read from the source on every run (`Gen.rpms_add_script`, … in
+`Generated/BuilderFacts.lean`, tools/gen_builders.py) and INTERPRETED here (`rpmsRun`, `modulesRun`, `extraRun`):
+removing, adding or reordering a refusal changes the model.  `rpmsCheck`, `modulesCheck`, `extraCheck` are the
+documented refusals written out by hand; `Proofs/Builders.lean` proves that interpreting the generated list is the
+same function (an obligation that stops compiling when the list changes).
+
 Every operation is `State → Args → State × Out` (never `Except State`): what a refused call leaves behind is
 part of the result and has to be proved from the order of checks and mutations (`Properties/C12.lean`).
 
@@ -106,6 +112,7 @@ def rpmsCheck (a : RpmsArgs) : Except Err RpmsPlan :=
   if !Gen.RPM_ARCHES.contains a.arch then .error .valueError
   else if srcArches.contains a.arch then .error .valueError
   else if !Gen.SUPPORTED_CATEGORIES.contains a.category then .error .valueError
+  else if a.path.isEmpty then .error .valueError
   else if Str.startsWith a.path ['/'] then .error .valueError
   else match checkNevra a.nevra with
     | .error e => .error e
@@ -128,10 +135,80 @@ def rpmsLeaf (key : Str) (record : PyVal) : PyVal → PyVal × Out
   | .dict r => (.dict (put r key record), .ok ())
   | v => (v, .error .typeError)
 
-def Rpms.add (s : PyVal) (a : RpmsArgs) : PyVal × Out :=
+/-- the documented behaviour written out by hand: the refusals, then the insertion -/
+def Rpms.addSpec (s : PyVal) (a : RpmsArgs) : PyVal × Out :=
   match rpmsCheck a with
   | .error e => (s, .error e)
   | .ok p => setPathS (rpmsLeaf p.key p.record) [a.variant, a.arch, p.srpmKey] s
+
+/-- `if <test>: raise ValueError` -/
+def refuseIf {α : Type} (c : Bool) (env : α) : Except Err α := if c then .error .valueError else .ok env
+
+/-- the local variables of `Rpms.add` that change while it runs -/
+structure REnv where
+  nevra : Str                -- `nevra`: the argument, then its canonical form
+  dict : Option Nvra         -- `nevra_dict`, once bound
+  sigkey : Option Str
+  srpm : Option Str          -- `srpm_nevra`
+deriving Repr
+
+def REnv.init (a : RpmsArgs) : REnv := { nevra := a.nevra, dict := none, sigkey := a.sigkey, srpm := a.srpm }
+
+/-- one statement of `Rpms.add` that does not touch the manifest -/
+def rpmsPure (a : RpmsArgs) (st : BStep) (env : REnv) : Except Err REnv :=
+  match st with
+  | .archTable => refuseIf (!Gen.RPM_ARCHES.contains a.arch) env
+  | .srcArch => refuseIf (srcArches.contains a.arch) env
+  | .category => refuseIf (!Gen.SUPPORTED_CATEGORIES.contains a.category) env
+  | .emptyPath => refuseIf a.path.isEmpty env
+  | .absolutePath => refuseIf (Str.startsWith a.path ['/']) env
+  | .nevra =>
+    match checkNevra env.nevra with
+    | .error e => .error e
+    | .ok (c, d) => .ok { env with nevra := c, dict := some d }
+  | .sourceWithSrpm => refuseIf (a.category == lit "source" && env.srpm.isSome) env
+  | .binaryWithoutSrpm => refuseIf (a.category != lit "source" && env.srpm.isNone) env
+  | .categoryArch =>
+    match env.dict with
+    | none => .error .other                                      -- `nevra_dict` not bound yet
+    | some d => refuseIf ((a.category == lit "source") != (archIn nevraSrcArches d.arch)) env
+  | .sigkeyLower => .ok { env with sigkey := env.sigkey.map Str.lowerAscii }
+  | .srpmCanon =>
+    match env.srpm with
+    | some t =>
+      if t.isEmpty then .ok { env with srpm := some env.nevra }              -- `if srpm_nevra:` is false
+      else match checkNevra t with
+        | .error e => .error e
+        | .ok (c, _) => .ok { env with srpm := some c }
+    | none => .ok { env with srpm := some env.nevra }
+  | _ => .error .other                    -- `unknown`, or a statement kind that has no meaning in this method
+
+/-- the block of `setdefault` calls and `rpms[nevra] = {...}` -/
+def rpmsInsert (a : RpmsArgs) (s : PyVal) (env : REnv) : PyVal × Out :=
+  match env.srpm with
+  | some k => setPathS (rpmsLeaf env.nevra (rpmRecord env.sigkey a.path a.category)) [a.variant, a.arch, k] s
+  | none => (s, .error .other)                                   -- `None` as a key: outside the model
+
+/-- run the statements in order; a raise ends the call with the manifest as it is at that point -/
+def rpmsRun (a : RpmsArgs) : List BStep → PyVal → REnv → PyVal × Out
+  | [], s, _ => (s, .ok ())
+  | st :: rest, s, env =>
+    if st = .insert then
+      match rpmsInsert a s env with
+      | (s', .ok _) => rpmsRun a rest s' env
+      | (s', .error e) => (s', .error e)
+    else
+      match rpmsPure a st env with
+      | .ok env' => rpmsRun a rest s env'
+      | .error e => (s, .error e)
+
+/-- `Rpms.add`: the statements the source contains now, in its order -/
+def Rpms.add (s : PyVal) (a : RpmsArgs) : PyVal × Out := rpmsRun a Gen.rpms_add_script s (REnv.init a)
+
+/-- the statement list the theorems are proved for (`Gen.rpms_add_script` must equal it: `Proofs/Builders.lean`) -/
+def specRpmsScript : List BStep :=
+  [.archTable, .srcArch, .category, .emptyPath, .absolutePath, .nevra, .sourceWithSrpm, .binaryWithoutSrpm,
+   .categoryArch, .sigkeyLower, .srpmCanon, .insert]
 
 /-! ### Modules.add -/
 
@@ -233,10 +310,63 @@ def modulesLeaf (p : ModulesPlan) : PyVal → PyVal × Out
     | _ => (.dict e1, .error .typeError)                -- "modulemd_path" was there and is not a dict
   | v => (v, .error .typeError)
 
-def Modules.add (s : PyVal) (a : ModulesArgs) : PyVal × Out :=
+def Modules.addSpec (s : PyVal) (a : ModulesArgs) : PyVal × Out :=
   match modulesCheck a with
   | .error e => (s, .error e)
   | .ok p => setPathS (modulesLeaf p) [a.variant, a.arch, p.uid] s
+
+/-- the local variables of `Modules.add` that change while it runs -/
+structure MEnv where
+  uid : PyVal                    -- `uid`: the argument, then its canonical form
+  parts : Option UidParts        -- `uid_dict`, once bound
+deriving Repr
+
+def MEnv.init (a : ModulesArgs) : MEnv := { uid := a.uid, parts := none }
+
+def modulesPure (a : ModulesArgs) (st : BStep) (env : MEnv) : Except Err MEnv :=
+  match st with
+  | .emptyVariant => refuseIf a.variant.isEmpty env
+  | .archTable => refuseIf (!Gen.RPM_ARCHES.contains a.arch) env
+  | .category => refuseIf (!Gen.SUPPORTED_CATEGORIES.contains a.category) env
+  | .uid =>
+    match checkUid env.uid with
+    | .error e => .error e
+    | .ok (c, u) => .ok { uid := .str c, parts := some u }
+  | .assign =>
+    match env.parts with
+    | none => .error .other                                      -- `uid_dict` not bound yet
+    | some _ => .ok env
+  | .absoluteMdPath => refuseIf (Str.startsWith a.modulemdPath ['/']) env
+  | .kojiTag => refuseIf a.kojiTag.isEmpty env
+  | .paramsLoop => refuseIf (a.variant.isEmpty || a.kojiTag.isEmpty || a.modulemdPath.isEmpty) env
+  | .rpmsType => refuseIf (match a.rpms with | .other => true | _ => false) env
+  | _ => .error .other
+
+def modulesInsert (a : ModulesArgs) (s : PyVal) (env : MEnv) : PyVal × Out :=
+  match env.uid, env.parts, a.rpms with
+  | .str k, some u, .list xs | .str k, some u, .tuple xs =>
+    setPathS (modulesLeaf { uid := k, metadata := moduleMetadata k u a.kojiTag, category := a.category,
+                            path := a.modulemdPath, rpms := xs }) [a.variant, a.arch, k] s
+  | _, _, _ => (s, .error .other)                     -- unbound names, or `list(rpms)` of a foreign object
+
+def modulesRun (a : ModulesArgs) : List BStep → PyVal → MEnv → PyVal × Out
+  | [], s, _ => (s, .ok ())
+  | st :: rest, s, env =>
+    if st = .insert then
+      match modulesInsert a s env with
+      | (s', .ok _) => modulesRun a rest s' env
+      | (s', .error e) => (s', .error e)
+    else
+      match modulesPure a st env with
+      | .ok env' => modulesRun a rest s env'
+      | .error e => (s, .error e)
+
+/-- `Modules.add`: the statements the source contains now, in its order -/
+def Modules.add (s : PyVal) (a : ModulesArgs) : PyVal × Out := modulesRun a Gen.modules_add_script s (MEnv.init a)
+
+def specModulesScript : List BStep :=
+  [.emptyVariant, .archTable, .category, .uid, .assign, .assign, .assign, .assign, .absoluteMdPath, .kojiTag,
+   .paramsLoop, .rpmsType, .insert]
 
 /-! ### ExtraFiles.add -/
 
@@ -267,10 +397,37 @@ def extraLeaf (arch : Str) (record : PyVal) : PyVal → PyVal × Out
     | _ => (.dict am, .error .attributeError)           -- the arch entry was there and is not a list: no `append`
   | v => (v, .error .attributeError)
 
-def ExtraFiles.add (s : PyVal) (a : ExtraArgs) : PyVal × Out :=
+def ExtraFiles.addSpec (s : PyVal) (a : ExtraArgs) : PyVal × Out :=
   match extraCheck a with
   | .error e => (s, .error e)
   | .ok rec => setPathS (extraLeaf a.arch rec) [a.variant] s
+
+def extraPure (a : ExtraArgs) (st : BStep) : Except Err Unit :=
+  match st with
+  | .emptyVariant => refuseIf a.variant.isEmpty ()
+  | .archTable => refuseIf (!Gen.RPM_ARCHES.contains a.arch) ()
+  | .emptyPath => refuseIf a.path.isEmpty ()
+  | .absolutePath => refuseIf (Str.startsWith a.path ['/']) ()
+  | .checksumsType => if !a.checksums.isinstance .dict then .error .typeError else .ok ()
+  | _ => .error .other
+
+def extraRun (a : ExtraArgs) : List BStep → PyVal → PyVal × Out
+  | [], s => (s, .ok ())
+  | st :: rest, s =>
+    if st = .insert then
+      match setPathS (extraLeaf a.arch (extraRecord a)) [a.variant] s with
+      | (s', .ok _) => extraRun a rest s'
+      | (s', .error e) => (s', .error e)
+    else
+      match extraPure a st with
+      | .ok _ => extraRun a rest s
+      | .error e => (s, .error e)
+
+/-- `ExtraFiles.add`: the statements the source contains now, in its order -/
+def ExtraFiles.add (s : PyVal) (a : ExtraArgs) : PyVal × Out := extraRun a Gen.extra_add_script s
+
+def specExtraScript : List BStep :=
+  [.emptyVariant, .archTable, .emptyPath, .absolutePath, .checksumsType, .insert]
 
 /-! ### `_relative_to`, `dump_for_tree` -/
 
